@@ -735,6 +735,10 @@ class Translator:
             # std::vector<T>(n): n value-initialised elements
             self.tmpn = getattr(self, 'tmpn', 0) + 1
             t = 'verif_v%d' % self.tmpn
+            if self.instantiate:
+                # quantifier-free: value-initialisation stated at the unit's ghost indices only (weaker, sound)
+                return '({ %s %s; %s.size = %s; %s %s; })' % (
+                    ct, t, t, self.e(args[0]), ' '.join('__CPROVER_assume(%s.data[%s] == 0);' % (t, g) for g in self.instantiate), t)
             return '({ %s %s; %s.size = %s; __CPROVER_assume(__CPROVER_forall { unsigned long verif_q; %s.data[verif_q] == 0 }); %s; })' % (
                 ct, t, t, self.e(args[0]), t, t)
         if kind and kind[0] == 'vec' and len(args) == 2 and self.tm.tname(args[0]['type']) in SCALAR_C and \
@@ -1085,6 +1089,10 @@ class Translator:
                     ct1 = self.tm.tname(args[0]['type']).rstrip(' *').rstrip()
                 except ExtractError:
                     ct1 = 'c_opaque'
+                if ct1 == 'c_opaque' and 'op:opaque:operator!' in self.lib:
+                    # the unit models the stream state itself (ghost source / sink)
+                    self.cur.stubs.add(self.lib['op:opaque:operator!'])
+                    return '%s(%s)' % (self.lib['op:opaque:operator!'], A(0))
                 if ct1 == 'c_opaque':
                     # !stream on an unmodelled stream object: the I/O operation may or may not have failed
                     self.cur.stubs.add('state of an unmodelled stream (operator!): nondeterministic')
@@ -1149,6 +1157,9 @@ class Translator:
                             al = ', '.join(['&verif_tmp'] + [self.arg(a, p) for a, p in zip(real, self._ctor_params(cn))])
                             return 'VEC_PUSH(%s, ({ %s verif_tmp; %s(%s); verif_tmp; }))' % (o, et, cn, al)
                         self.abort(n, 'emplace_back: %d constructors of %s with %d parameters in the extraction set' % (len(cands), et, len(real)))
+                if name == 'reserve' and len(args) == 1:
+                    self.cur.stubs.add('vector::reserve(n) changes no element and no size (allocation failure is an exception)')
+                    return '((void)(%s))' % A(0)
                 if name == 'clear':
                     return 'VEC_CLEAR(%s)' % o
                 if name in ('data', 'c_str') and not args:
@@ -1205,7 +1216,29 @@ class Translator:
                             v = self.e(vobj)
                             return 'SINK_WRITE_VEC(%s, %s, %d)' % ('(*%s)' % v if x['inner'][0].get('isArrow') else v, nb, es)
                 return 'SINK_WRITE_RAW(%s)' % nb
-            if oct_ == 'c_opaque' and name == 'read' and len(args) == 2:
+            if oct_ in ('c_opaque', None) and name == 'read' and len(args) == 2:
+                x = args[0]
+                while x.get('kind') in ('ImplicitCastExpr', 'CXXReinterpretCastExpr', 'CStyleCastExpr', 'ParenExpr', 'CXXStaticCastExpr') and x.get('inner'):
+                    x = [y for y in x['inner'] if y][0]
+                if x.get('kind') == 'UnaryOperator' and x.get('opcode') == '&':
+                    tgt = [y for y in x['inner'] if y][0]
+                    try:
+                        tct = self.tm.tname(tgt['type'])
+                    except ExtractError:
+                        tct = None
+                    if tct in SCALAR_C and tct != 'c_opaque':
+                        self.cur.stubs.add('istream::read(&x, n): x becomes arbitrary file content, or stays indeterminate on a short read (ghost source macros SRC_READ_* )')
+                        return 'SRC_READ_SCALAR(%s, %s)' % (self.e(tgt), self.e(args[1]))
+                if x.get('kind') == 'CXXMemberCallExpr' and x['inner'][0].get('name') == 'data':
+                    vobj = x['inner'][0]['inner'][0]
+                    try:
+                        vct = self.tm.tname(vobj['type']).rstrip(' *').rstrip()
+                    except ExtractError:
+                        vct = None
+                    if self.tm.kinds.get(vct, ('',))[0] == 'vec':
+                        self.cur.stubs.add('istream::read(buf, n): the first n bytes of buf become arbitrary file content (or stay indeterminate on a short read)')
+                        v = self.e(vobj)
+                        return 'SRC_READ_VEC(%s, %s)' % ('(*%s)' % v if x['inner'][0].get('isArrow') else v, self.e(args[1]))
                 a0 = self.e(args[0])
                 if a0.startswith('VEC_DATA('):
                     self.cur.stubs.add('istream::read(buf, n): the first n bytes of buf become arbitrary file content (or stay indeterminate on a short read)')
@@ -1785,6 +1818,16 @@ class Translator:
             idx = 1
         if n.get('hasVar'):
             self.abort(n, 'if with condition variable')
+        if n.get('isConstexpr') and inner[idx].get('kind') == 'ConstantExpr' and inner[idx].get('value') in ('true', 'false'):
+            # if constexpr in an instantiation: clang has evaluated the condition and discarded the other branch
+            taken = inner[idx + 1] if inner[idx]['value'] == 'true' else (inner[idx + 2] if len(inner) > idx + 2 else None)
+            self.out('/* if constexpr: %s */' % inner[idx]['value'])
+            if taken is not None and taken.get('kind') != 'NullStmt':
+                self.block(taken)
+            if opened:
+                self.ind -= 1
+                self.out('}')
+            return
         c = self.e(inner[idx])
         if self.called:
             self.out('{ _Bool verif_c = %s;' % c)
